@@ -22,7 +22,7 @@ RULE = (
     "(none, gravity, spring force form, spring compliance form, Kelvin-Voigt compliance, Maxwell, Motor/PD/PID on the "
     "mechanism's revolute joint) x contact scenarios on an extra ball (none, resting mu=0, sticking mu=.3 with "
     "tangential load, sliding mu=.3, open, two stacked spheres, plane accelerating from rest, spinning body with off-centre contact sphere) x initial state (rest, generic consistent spin); plus "
-    "inconsistent variants (joint velocity violation, position-level constraint violation (synthetic constraint with fixed reference; library joints re-anchor at q0 by construction), penetration, closed contact "
+    "inconsistent variants (joint velocity violation, position-level constraint violation (synthetic constraint with fixed reference), joint offset by moving a body between two assemblies (trivial if the joint re-anchors itself at the new q0), penetration, closed contact "
     "approaching, sphere-sphere penetration) x mechanisms x {rest, spin}. A consistent case is non-trivial if assemble "
     "returned and the residuals were evaluated; an inconsistent one if the inconsistency was really present"
 )
@@ -49,7 +49,7 @@ def cases(tier, seed):
         for mech in sc.MECHS:
             if mech == "synth":
                 continue
-            if bad == "joint_velocity" and mech == "free":
+            if bad in ("joint_velocity", "joint_offset") and mech == "free":
                 continue
             for init in sc.INITS:
                 for att in ("none", "gravity"):
